@@ -104,21 +104,34 @@ def lubAttrs (dom strict : Bool) : Attrs → Attrs → Option Attrs
         if strict || dom then none else lubAttrs dom strict rest b
 end
 
-/-! ## Capabilities (`capability.go`): a set of (rendered access path, attribute) pairs -/
+/-! ## Capabilities (`capability.go`): a set of (access path, attribute) pairs.
+   A path (`capPath`: a variable name, or `capAccess{base, attr}` on another path, compared structurally by Go's `==`) is
+   the list `[variable, attr₁, …, attrₙ]`.  Tag capabilities (`tag: true`, from `hasTag`) are a separate name space and do
+   not occur in the fragment. -/
 
-abbrev Caps := List (List Char × String)
+abbrev Caps := List (List String × String)
 
-def Caps.has (cs : Caps) (p : List Char) (a : String) : Bool := cs.contains (p, a)
-def Caps.add (cs : Caps) (p : List Char) (a : String) : Caps := (p, a) :: cs
+def Caps.has (cs : Caps) (p : List String) (a : String) : Bool := cs.contains (p, a)
+def Caps.add (cs : Caps) (p : List String) (a : String) : Caps := (p, a) :: cs
 def Caps.merge (a b : Caps) : Caps := a ++ b
 def Caps.intersect (a b : Caps) : Caps := a.filter (fun c => b.contains c)
 
 def varNameStr : Var → String
   | .principal => "principal" | .action => "action" | .resource => "resource" | .context => "context"
 
-/-- `exprVarName`: the dotted rendering of a variable-rooted access chain, `[]` (Go `""`) otherwise.
-    Rendered as the character list of the Go string.  NOT injective: `context["a.b"]` and
-    `context.a.b` render alike (`C15_capability_collision_counterexample`). -/
+/-- `exprCapPath`: the capability path of a variable-rooted access chain — the variable followed by the accessed
+    attribute names — `[]` (Go `nil`) for any other expression.  Injective on variable-rooted chains
+    (`exprCapPath_inj`).  (Before the repair of `capability-path-collision` the key was the DOTTED RENDERING of the
+    chain, `exprVarName`, which conflates `context["a.b"]` with `context.a.b`.) -/
+def exprCapPath : Expr → List String
+  | .var v => [varNameStr v]
+  | .access e a =>
+    let p := exprCapPath e
+    if p.isEmpty then [] else p ++ [a]
+  | _ => []
+
+/-- `exprVarName` (now used for error messages only): the dotted rendering of a variable-rooted access chain, as the
+    character list of the Go string; `[]` (Go `""`) otherwise.  NOT injective. -/
 def exprVarName : Expr → List Char
   | .var v => (varNameStr v).toList
   | .access e a =>
@@ -194,8 +207,5 @@ def validExtLiteral (fn s : String) : Bool :=
   else if fn == "datetime" then (Scalars.parseDatetime s).toBool
   else if fn == "duration" then (Scalars.parseDuration s).toBool
   else true
-
-/-- attribute names the soundness theorem covers: no `'.'` (capability keys are dotted renderings) -/
-def noDot (a : String) : Bool := !a.toList.contains '.'
 
 end CedarGo.Validate
